@@ -318,3 +318,70 @@ Proof.
   - exists true, (pw (Z.to_N (-1 - z))), (Z.to_N (-1 - z)). repeat split; [apply pw_fits; unfold two63, two64 in *; lia|unfold two63 in *; lia|lia].
   - exists false, (pw (Z.to_N z)), (Z.to_N z). repeat split; [apply pw_fits; unfold two63, two64 in *; lia|unfold two63 in *; lia|lia].
 Qed.
+
+Lemma flat_entries_of fs : forall vs j, flat_entries (entries_of j fs vs) = tree_fields fs vs.
+Proof.
+  induction fs as [|k p t r IH]; intros vs j; [reflexivity|]. destruct vs as [|v vs]; [reflexivity|].
+  cbn [entries_of tree_fields]. unfold flat_entries in *. rewrite flat_map_app, IH. f_equal.
+  destruct v as [x|]; [|reflexivity]. destruct (present p (Some x)); reflexivity.
+Qed.
+Lemma entries_keys fs : forall vs j e, In e (entries_of j fs vs) -> In (e_key e) (fkeys fs).
+Proof.
+  induction fs as [|k p t r IH]; intros vs j e H; [destruct vs; contradiction|]. destruct vs as [|v vs]; [contradiction|].
+  cbn [entries_of fkeys] in *. apply in_app_or in H. destruct H as [H|H]; [|right; eapply IH; eauto].
+  destruct v as [x|]; [|contradiction]. destruct (present p (Some x)); [|contradiction]. destruct H as [<-|[]]. left. reflexivity.
+Qed.
+
+(* the writer's canonical tree is one of the encodings of the value: C09 is the special case of C08 for the exporter's own output *)
+Theorem canonical_enc :
+  (forall t v, desc_ok t = true -> has_ty t v -> enc_of t (tree_of t v) v) /\
+  (forall fs sk vs, fields_ok fs = true -> fields_ty sk fs vs -> NoDup (fkeys fs) -> forall i,
+     Forall (fun e => int_enc (e_kx e) (e_key e) /\ fenc fs i (e_key e) (e_vx e) (e_upd e)) (entries_of i fs vs)).
+Proof.
+  apply ty_fields_ind.
+  - intros bits [n|z|b|bs|xs|fs] _ H; try contradiction. cbn [has_ty] in H. destruct H as [Hn Hb]. cbn [enc_of tree_of].
+    assert (Hn64 : n < two64). { unfold two64. destruct Hb as [ -> | [ -> | [ -> | -> ] ] ]; cbn in Hn; lia. }
+    exists n. split; [exists (pw n); split; [reflexivity|apply pw_fits; exact Hn64]|]. rewrite N.mod_small by exact Hn. reflexivity.
+  - intros [n|z|b|bs|xs|fs] _ H; try contradiction. cbn [has_ty] in H. cbn [enc_of tree_of]. exists z. split; [apply int_item_enc; exact H|reflexivity].
+  - intros [n|z|b|bs|xs|fs] _ H; try contradiction. cbn [enc_of tree_of]. exists b. split; reflexivity.
+  - intros [n|z|b|bs|xs|fs] _ H; try contradiction. cbn [has_ty] in H. cbn [enc_of tree_of]. exists bs. split; [|reflexivity].
+    left. exists (pw (N.of_nat (length bs))). split; [reflexivity|apply pw_fits; apply H].
+  - intros [n|z|b|bs|xs|fs] _ H; try contradiction. cbn [has_ty] in H. cbn [enc_of tree_of]. exists bs. split; [|reflexivity].
+    left. exists (pw (N.of_nat (length bs))). split; [reflexivity|apply pw_fits; apply H].
+  - intros [n|z|b|bs|xs|fs] _ H; try contradiction.
+    destruct xs as [|[s| | | | |] [|[k| | | | |] [|? ?]]]; try contradiction. cbn [has_ty] in H. destruct H as [Hs Hk].
+    cbn [enc_of tree_of]. exists [uint_item s; uint_item k], s, k. split; [left; exists W0; split; [reflexivity|cbn; lia]|]. split; [|reflexivity].
+    constructor; [exists (pw s); split; [reflexivity|apply pw_fits; exact Hs]|]. constructor; [exists (pw k); split; [reflexivity|apply pw_fits; exact Hk]|constructor].
+  - intros e IH [n|z|b|bs|xs|fs] Hd H; try contradiction. cbn [has_ty] in H. destruct H as [Hl H]. apply all_Forall in H.
+    cbn [enc_of tree_of]. exists (map (tree_of e) xs), xs. split; [left; exists (pw (N.of_nat (length xs))); split; [reflexivity|rewrite map_length; apply pw_fits; exact Hl]|].
+    split; [|reflexivity]. clear Hl. induction H as [|x xs Hx _ IHl]; cbn [map]; constructor; auto.
+  - intros [n|z|b|bs|xs|fs] _ H; try contradiction. cbn [has_ty] in H. destruct H as [Hl H]. apply all_Forall in H.
+    cbn [enc_of tree_of].
+    exists (map (fun x => match x with VN n => uint_item n | _ => ISeven W0 0 end) xs), (map (fun x => match x with VN n => n | _ => 0 end) xs).
+    split; [left; exists (pw (N.of_nat (length xs))); split; [reflexivity|rewrite map_length; apply pw_fits; exact Hl]|].
+    split.
+    + clear Hl. induction H as [|x xs Hx _ IHl]; cbn [map]; constructor; auto. destruct x; try contradiction.
+      exists (pw n). split; [reflexivity|apply pw_fits; unfold two64; cbn in Hx; lia].
+    + f_equal. clear Hl. induction H as [|x xs Hx _ IHl]; cbn [map]; [reflexivity|]. rewrite <- IHl. f_equal. destruct x; try contradiction.
+      rewrite N.mod_small by exact Hx. reflexivity.
+  - intros sk fs IH [n|z|b|bs|xs|vs] Hd H; try contradiction. cbn [has_ty] in H.
+    cbn [desc_ok] in Hd. apply andb_true_iff in Hd. destruct Hd as [Hd Hfo]. apply andb_true_iff in Hd. destruct Hd as [Hnd Hfl].
+    cbn [enc_of tree_of]. exists (entries_of 0 fs vs). split; [|split; [|split]].
+    + left. exists (pw (count_present fs vs)). rewrite flat_entries_of. split; [reflexivity|]. rewrite entries_length. apply pw_fits.
+      pose proof (count_le_flen fs vs). unfold two64. lia.
+    + apply (IH sk); auto. apply nodupb_NoDup. exact Hnd.
+    + pose proof (entries_fold sk fs vs [] H) as Hf. cbn [length app] in Hf. rewrite Hf. apply (mand_ok_ty sk fs vs H).
+    + pose proof (entries_fold sk fs vs [] H) as Hf. cbn [length app] in Hf. rewrite Hf. rewrite (proj2 (mand_ok_ty sk fs vs H)). reflexivity.
+  - intros sk vs _ H _ i. destruct vs; constructor.
+  - intros k p t IHt r IHr sk vs Hd H Hnd i. destruct vs as [|v vs]; [contradiction|].
+    cbn [fields_ty] in H. destruct H as (Hk & Hv & Hr). cbn [fields_ok] in Hd. apply andb_true_iff in Hd. destruct Hd as [Hdt Hdr].
+    cbn [fkeys] in Hnd. inversion Hnd as [|? ? Hni Hnd']; subst.
+    cbn [entries_of]. apply Forall_app. split.
+    + destruct v as [x|]; [|constructor]. destruct (present p (Some x)) eqn:Hp; [|constructor]. constructor; [|constructor].
+      cbn [e_kx e_key e_vx e_upd]. split; [apply int_item_enc; unfold two63; destruct sk; lia|].
+      cbn [fenc]. rewrite Z.eqb_refl. exists x. split; [reflexivity|]. apply IHt; auto.
+      destruct p; try tauto. destruct x; try contradiction. exact Hv.
+    + specialize (IHr sk vs Hdr Hr Hnd' (S i)). rewrite Forall_forall in *. intros e He. destruct (IHr e He) as [A B]. split; [exact A|].
+      cbn [fenc]. assert ((e_key e =? k)%Z = false) as ->; [|exact B].
+      apply Z.eqb_neq. intros E. apply Hni. rewrite <- E. eapply entries_keys; eauto.
+Qed.
